@@ -327,11 +327,18 @@ func (e *Exec) unary(st *State, x *ast.UnaryExpr) Val {
 		// (the common "return &loopVar" / "pass &local to a reader" idioms); a later write through the
 		// pointer would not be seen through the variable, which is recorded as a modelling note.
 		v := e.ev(st, x.X)
-		e.note("address-of a variable modelled as a fresh cell holding its current value at " + e.posStr(x.Pos()))
-		return e.alloc(st, v, info.TypeOf(x))
+		r := e.alloc(st, v, info.TypeOf(x))
+		if e.borrowArgs[x] && e.assignable(x.X) {
+			// argument of a call: the cell is copied back into the variable when the call returns
+			e.borrows = append(e.borrows, borrow{lv: x.X, ref: r.T, elem: v.GT})
+			return r
+		}
+		e.note("address-of a variable outside a call argument modelled as a fresh cell holding its current value at " + e.posStr(x.Pos()))
+		return r
 	case token.ARROW:
 		t := info.TypeOf(x)
 		e.note("channel receive modelled as an arbitrary value at " + e.posStr(x.Pos()))
+		e.markReceived(st, e.ev(st, x.X))
 		return e.freshVal("recv", t)
 	case token.XOR:
 		v := e.ev(st, x.X)
@@ -1117,4 +1124,46 @@ func (e *Exec) syncImplFacts() {
 			}
 		}
 	}
+}
+
+// assignable: can store() write to this expression (variables, fields, slice/array/map elements, *p)?
+func (e *Exec) assignable(x ast.Expr) bool {
+	switch l := ast.Unparen(x).(type) {
+	case *ast.Ident:
+		_, isVar := e.info().ObjectOf(l).(*types.Var)
+		return isVar && l.Name != "_"
+	case *ast.SelectorExpr:
+		if sel := e.info().Selections[l]; sel != nil && sel.Kind() == types.FieldVal {
+			if _, isPtr := e.info().TypeOf(l.X).Underlying().(*types.Pointer); isPtr {
+				return true
+			}
+			return e.assignable(l.X)
+		}
+		return false
+	case *ast.IndexExpr:
+		switch e.info().TypeOf(l.X).Underlying().(type) {
+		case *types.Slice:
+			return e.assignable(l.X)
+		case *types.Array:
+			return e.assignable(l.X)
+		}
+		return false
+	case *ast.StarExpr:
+		return true
+	}
+	return false
+}
+
+// markReceived records that this path has completed a receive on channel ch (ghost set read by received(ch)):
+// the path continues only after a value was sent on ch or ch was closed.
+func (e *Exec) markReceived(st *State, ch Val) {
+	cur, ok := st.ghosts["received"]
+	if !ok {
+		cur = Val{T: e.received0()}
+	}
+	st.ghosts["received"] = Val{T: Store(cur.T, ch.T, True)}
+}
+
+func (e *Exec) received0() Term {
+	return T(ArraySort(SInt, SBool), "((as const (Array Int Bool)) false)")
 }
